@@ -254,6 +254,7 @@ func (l *CertificateLint) execute(cert *x509.Certificate, config Configuration) 
 		return &LintResult{Status: NA}
 	}
 	lint := l.Lint()
+	verifGate("lint.constructed", l.Name)
 	err := config.MaybeConfigure(lint, l.Name)
 	if err != nil {
 		return &LintResult{
@@ -298,6 +299,7 @@ func (l *RevocationListLint) CheckEffective(r *x509.RevocationList) bool {
 // Execute()
 func (l *RevocationListLint) Execute(r *x509.RevocationList, config Configuration) *LintResult {
 	lint := l.Lint()
+	verifGate("lint.constructed", l.Name)
 	err := config.MaybeConfigure(lint, l.Name)
 	if err != nil {
 		return &LintResult{
@@ -370,6 +372,7 @@ func (l *OcspResponseLint) CheckEffective(o *ocsp.Response) bool {
 // Execute()
 func (l *OcspResponseLint) Execute(o *ocsp.Response, config Configuration) *LintResult {
 	lint := l.Lint()
+	verifGate("lint.constructed", l.Name)
 	err := config.MaybeConfigure(lint, l.Name)
 	if err != nil {
 		return &LintResult{
